@@ -112,7 +112,7 @@ func runOverlayTest(repo, pkgDir, testName, src string) (bool, string) {
 	defer cancel()
 	cmd := exec.CommandContext(ctx, "go", "test", "-overlay", ovFile, "-vet=off", "-count=1", "-timeout", "60s", "-run", "^"+testName+"$", "./"+pkgDir)
 	cmd.Dir = repo
-	cmd.Env = append(os.Environ(), "GOFLAGS=-mod=mod", "GOPROXY=off", "GOSUMDB=off", "GOTOOLCHAIN=local", "XDG_CONFIG_HOME="+tmp, "HOME="+tmp, "GOCACHE="+goCache())
+	cmd.Env = append(os.Environ(), "GOFLAGS=-mod=mod", "GOPROXY=off", "GOSUMDB=off", "GOTOOLCHAIN=local", "XDG_CONFIG_HOME="+tmp, "GOCACHE="+goCache())
 	var out bytes.Buffer
 	cmd.Stdout = &out
 	cmd.Stderr = &out
